@@ -166,6 +166,9 @@ impl<'a> SectionsBuilder<'a> {
                 }
 
                 self.builder.set_id(id);
+                // a list whose items are all empty has not consumed the "first child" flag:
+                // whatever comes next is a sibling of the list, not a child of its parent
+                self.builder.set_insert(false);
             }
             OrderedList(list) => {
                 self.builder.ordered_list();
@@ -177,6 +180,7 @@ impl<'a> SectionsBuilder<'a> {
                 }
 
                 self.builder.set_id(id);
+                self.builder.set_insert(false);
             }
             BlockQuote(quote) => {
                 self.builder.quote();
